@@ -521,7 +521,7 @@ func main() {
 		replay(run)
 		return
 	}
-	run.SetBudget(5*60e9, 40*60e9)
+	run.SetBudget(5*60e9, 20*60e9)
 	cs := cases(run.Thorough())
 	shard.Run(run, 0, nil, func(s shard.Info, out *shard.Out) {
 		bs := mkBase()
